@@ -71,8 +71,7 @@ def run(tier):
 def replay(w):
     if w.get("editwalk"):
         return editwalk.replay(w)
-    acc = core.Acc()
-    return _wrap(lambda: check_one(specs.load(w["spec"]), w["opts"], acc, w.get("tag", "")))
+    return shape.replay(w, check_one)
 
 
 def _wrap(fn):
